@@ -93,6 +93,20 @@ func (e *Engine) emit(o *Oblig, lambda bool, withModel bool) string {
 	if len(ids) <= 40 {
 		for i := 0; i < len(ids); i++ {
 			for j := i + 1; j < len(ids); j++ {
+				li, oki := e.strLens[ids[i].s]
+				lj, okj := e.strLens[ids[j].s]
+				if oki && okj {
+					if li != lj {
+						continue // different lengths: distinct, follows from slen facts
+					}
+					// same constant length: bytewise ground extensionality
+					var diffs []string
+					for k := int64(0); k < li; k++ {
+						diffs = append(diffs, fmt.Sprintf("(not (= (select (sarr %s) %d) (select (sarr %s) %d)))", ids[i].s, k, ids[j].s, k))
+					}
+					fmt.Fprintf(&b, "(assert (or (= %s %s) %s))\n", ids[i].s, ids[j].s, strings.Join(diffs, " "))
+					continue
+				}
 				d := fmt.Sprintf("sd!%d!%d", i, j)
 				fmt.Fprintf(&b, "(declare-const %s Int)\n", d)
 				fmt.Fprintf(&b, "(assert (or (= %s %s) (not (= (slen %s) (slen %s))) (and (<= 0 %s) (< %s (slen %s)) (not (= (select (sarr %s) %s) (select (sarr %s) %s))))))\n",
@@ -119,7 +133,14 @@ type solveResult struct {
 	out    string
 }
 
+var solverSem = make(chan struct{}, 16)
+
 func runSolver(ctx context.Context, s solverSpec, file string, timeoutS int) solveResult {
+	solverSem <- struct{}{}
+	defer func() { <-solverSem }()
+	if ctx.Err() != nil {
+		return solveResult{status: "cancelled", solver: s.name}
+	}
 	t0 := time.Now()
 	cctx, cancel := context.WithTimeout(ctx, time.Duration(timeoutS+2)*time.Second)
 	defer cancel()
@@ -166,8 +187,9 @@ func (e *Engine) solve(o *Oblig, dir string, idx int, timeoutS int, crossCheck b
 		o.status, o.solver, o.secs = "unsat", r.solver, time.Since(t0).Seconds()
 		return
 	}
-	if r.status == "sat" && o.kind == "cover" {
-		o.status, o.solver, o.secs = "sat", r.solver, time.Since(t0).Seconds()
+	if o.kind == "cover" {
+		// vacuity probes: sat = fine, unsat = contradictory assumptions, anything else = undecided (not an error)
+		o.status, o.solver, o.secs = r.status, r.solver, time.Since(t0).Seconds()
 		return
 	}
 	// race everything
@@ -302,4 +324,15 @@ func solveAll(results []*FuncResult, dir string, timeoutS int, workers int, cros
 	}
 	close(ch)
 	wg.Wait()
+	// second chance, one at a time (no CPU contention), for anything that timed out or came back unknown
+	for _, j := range jobs {
+		if j.o.kind == "cover" || j.o.status == "unsat" || j.o.status == "sat" {
+			continue
+		}
+		first := j.o.status
+		j.e.solve(j.o, dir, j.idx, timeoutS*2, false)
+		if j.o.status == "unsat" {
+			j.o.solver += " (retry after " + first + ")"
+		}
+	}
 }
